@@ -1,4 +1,5 @@
 import J5V.Print.ReparseMain
+import J5V.Print.ReparseComments
 /-!
 # Which files the grammar theorem covers — a decidable test (core only)
 
@@ -568,15 +569,47 @@ theorem rpcTyB_sound {s : String} (h : rpcTyB s = true) :
     exact rpcTyBody_sound s true r (by rw [hcs]; rfl) h
   · exact rpcTyBody_sound s false s.toList (by simp) h
 
+def rpcOptsB (os : List SOpt) : Bool :=
+  os.all (fun o => !o.hasLoc) &&
+  (optLines0 os).all (fun l => l.toList.all (fun c => c != '\n') && tokOkB l) &&
+  decide ((rpcChunks os).flatten = rpcToks0 os) &&
+  (rpcChunks os).all (fun c => match Grammar.optionStmt c with | some (_, []) => true | _ => false) &&
+  optsOkB os (mkOpts 0 (rpcRaws0 os)) &&
+  (mkOpts 0 (rpcRaws0 os)).all (fun o => !o.hasLoc || decide (0 < o.startLine))
+
+theorem rpcOptsB_sound {os : List SOpt} (h : rpcOptsB os = true) : RpcOpts os := by
+  unfold rpcOptsB at h
+  simp only [Bool.and_eq_true, decide_eq_true_eq] at h
+  obtain ⟨⟨⟨⟨⟨hu, hnoch⟩, hwhole⟩, hchunks⟩, hok⟩, hpos⟩ := h
+  refine ⟨?_, ?_, hwhole, ?_, optsOkB_sound hok, ?_⟩
+  · intro o ho
+    simp only [List.all_eq_true, Bool.not_eq_true'] at hu
+    exact hu o ho
+  · intro l hl
+    simp only [List.all_eq_true, Bool.and_eq_true, bne_iff_ne, ne_eq] at hnoch
+    exact ⟨fun c hc => (hnoch l hl).1 c hc, tokOkB_sound (hnoch l hl).2⟩
+  · intro c hc
+    simp only [List.all_eq_true] at hchunks
+    have := hchunks c hc
+    split at this
+    · rename_i r heq
+      exact ⟨r, heq⟩
+    · simp at this
+  · intro o ho hl
+    simp only [List.all_eq_true, Bool.or_eq_true, Bool.not_eq_true', decide_eq_true_eq] at hpos
+    rcases hpos o ho with h | h
+    · rw [hl] at h; cases h
+    · exact h
+
 def simpleRpcB : Item → Bool
-  | .rpc l _ name inT outT os => locNoneB l && os.isEmpty && isIdentB name && rpcTyB inT && rpcTyB outT
+  | .rpc l _ name inT outT os => locNoneB l && rpcOptsB os && isIdentB name && rpcTyB inT && rpcTyB outT
   | _ => false
 
 theorem simpleRpcB_sound : ∀ e, simpleRpcB e = true → SimpleRpc e
   | .rpc l _ name inT outT os, h => by
     simp only [simpleRpcB, Bool.and_eq_true] at h
     obtain ⟨⟨⟨⟨hl, ho⟩, hn⟩, hi⟩, hou⟩ := h
-    exact ⟨locNoneB_sound hl, by simpa using ho, isIdentB_sound hn, rpcTyB_sound hi, rpcTyB_sound hou⟩
+    exact ⟨locNoneB_sound hl, rpcOptsB_sound ho, isIdentB_sound hn, rpcTyB_sound hi, rpcTyB_sound hou⟩
   | .field _, h => by simp [simpleRpcB] at h
   | .block _ _ _ _ _ _ _, h => by simp [simpleRpcB] at h
 
@@ -687,7 +720,7 @@ def fieldTags (f : FieldD) : List String :=
 mutual
 def itemTags : Item → List String
   | .field f => fieldTags f
-  | .rpc l _ _ _ _ os => locTags l ++ (if os.isEmpty then [] else ["options"])
+  | .rpc l _ _ _ _ os => locTags l ++ (if rpcOptsB os then [] else ["options"])
   | .block kw _ l _ _ os ks =>
     locTags l ++ (if (kw == "message" || kw == "enum" || kw == "service") && blockOptsB os then [] else if os.isEmpty then [] else ["options"]) ++ (if kw == "oneof" then ["oneof"] else []) ++ itemsTags ks
 def itemsTags : List Item → List String
